@@ -75,16 +75,24 @@ def replay_once(run, replay_args):
     return p.returncode, (p.stdout.decode('utf-8', 'replace') + p.stderr.decode('utf-8', 'replace'))[-3000:]
 
 def check(pid, tier, seed, runs, level='model_checking', rule=None, assumptions=None, keyfilter=None,
-          budget_s=None, extra_cov=None, post=None):
+          budget_s=None, extra_cov=None, post=None, parallel=False):
     """runs: list of Run.  keyfilter(key)->bool selects the violations that belong to this property.
     post(results)-> list of extra violation dicts (cross-run oracles such as configuration differentials)."""
     t0 = time.time()
     budget = budget_s or (600 if tier == 'quick' else 1500)
     known = load_known().get(pid, {})
     results = []
-    for r in runs:
-        left = budget - (time.time() - t0)
-        results.append((r, run_program(r, max(left, 5), seed, tier)))
+    if parallel:
+        from concurrent.futures import ThreadPoolExecutor
+        for r in runs:
+            r.binary()                      # build sequentially (shared cache), run concurrently
+        with ThreadPoolExecutor(len(runs)) as ex:
+            futs = [ex.submit(run_program, r, budget, seed, tier, max(1, NPROC // len(runs))) for r in runs]
+            results = [(r, f.result()) for r, f in zip(runs, futs)]
+    else:
+        for r in runs:
+            left = budget - (time.time() - t0)
+            results.append((r, run_program(r, max(left, 5), seed, tier)))
     parts, viol, samples = [], [], []
     states = trans = valid = 0
     exhaustive = True
